@@ -248,6 +248,7 @@ fn decide(case: &Case, info: &mut CaseInfo) -> Verdict {
             info.class("crowd_vs_recently_seen_addresses");
             // first the admission itself, without sockets: on a limiter older than two windows, admitting the k-th
             // recently seen address must not cost in proportion to k
+            let admitted_cell = std::cell::Cell::new(0usize);
             let cost = |k: usize| -> (Duration, Duration, bool) {
                 use passage_protocol::rate_limiter::RateLimiter;
                 use std::net::{IpAddr, Ipv6Addr};
@@ -272,6 +273,7 @@ fn decide(case: &Case, info: &mut CaseInfo) -> Verdict {
                     times.push(tb.elapsed());
                     i += batch;
                     if t0.elapsed() > Duration::from_secs(6) {
+                        admitted_cell.set(i.min(k));
                         let n = times.len();
                         return (median(&times[1.min(n)..10.min(n)]), median(&times[n.saturating_sub(9)..]), false);
                     }
@@ -283,7 +285,26 @@ fn decide(case: &Case, info: &mut CaseInfo) -> Verdict {
             // decided by the cost of the last batches relative to the first ones only: a measurement that the 6 s budget
             // cut off (a loaded machine) is judged on the batches it did complete - on an implementation whose cost
             // grows with the addresses seen those are the expensive ones - and is never a violation by itself
-            let grows = |(first, last, _done): (Duration, Duration, bool)| last > first * 25 + Duration::from_millis(40);
+            // A measurement cut off by the budget is additionally compared with a control on the same machine under the
+            // same load: as many admissions as the aged limiter managed in its 6 s, on a limiter whose clean-up never
+            // becomes due (window of an hour). The amortised clean-up costs a small constant factor; twenty times the
+            // control plus a second is cost that grows with the addresses seen.
+            let control = |admitted: usize| -> Duration {
+                use passage_protocol::rate_limiter::RateLimiter;
+                use std::net::{IpAddr, Ipv6Addr};
+                let mut rl = RateLimiter::<IpAddr>::new(Duration::from_secs(3600), 100_000);
+                let t0 = Instant::now();
+                for j in 0..admitted {
+                    rl.enqueue(IpAddr::V6(Ipv6Addr::from(0x2001_0db8_0002_0000_0000_0000_0000_0000u128 + j as u128)));
+                    if j % 2000 == 0 && t0.elapsed() > Duration::from_secs(6) {
+                        break;
+                    }
+                }
+                t0.elapsed()
+            };
+            let grows = |(first, last, done): (Duration, Duration, bool)| {
+                last > first * 25 + Duration::from_millis(40) || (!done && Duration::from_secs(6) > control(admitted_cell.get()) * 20 + Duration::from_secs(1))
+            };
             let m1 = cost(k);
             if !m1.2 {
                 info.class("admission_cost_measurement_cut_off_by_budget");
